@@ -8,10 +8,12 @@ EXTENDS Markdown, Json
 CONSTANTS MaxLen, TagLen
 RowAlpha == {PIPE, 45, 58, 32, 120}            \* | - : blank x
 TagAlpha == {BACKTICK, AT, 32, 120}
+TagAlphaH == {BACKTICK, AT, 32, 120, 35}       \* with '#': nothing on a Markdown tag line starts a comment
 VARIABLES vKind, vN, vBody, vSeen
 Init == /\ vSeen = FALSE
         /\ \/ vKind = "row" /\ vN \in 0..8 /\ vBody \in UNION { [1..m -> RowAlpha] : m \in 0..MaxLen }
            \/ vKind = "tags" /\ vN \in 0..1 /\ vBody \in UNION { [1..m -> TagAlpha] : m \in 0..TagLen }
+           \/ vKind = "tagsh" /\ vN \in 0..1 /\ vBody \in { b \in UNION { [1..m -> TagAlphaH] : m \in 0..(TagLen - 1) } : \E j \in DOMAIN b : b[j] = 35 }
 Next == ~vSeen /\ vSeen' = TRUE /\ UNCHANGED <<vKind, vN, vBody>>
 Spec == Init /\ [][Next]_<<vKind, vN, vBody, vSeen>>
 \* indentation: vN blanks; for rows every third case uses tabs, every third a tab first and spaces after (a tab is ONE blank)
@@ -26,10 +28,10 @@ Inv_RowWindow == (vSeen /\ vKind = "row") =>
    /\ (Res.ok => \A j \in 1..Len(Res.items) : ~IsSepCell(Res.items[j].text))
    /\ ((vN \in 2..5 /\ \A j \in 1..Len(CellsOf(TestLine)) : ~IsSepCell(CellsOf(TestLine)[j].text)) => Res.ok)
 \* "tags are the backtick-quoted '@' words of a line, each with its own column"
-Inv_Tags == (vSeen /\ vKind = "tags" /\ Res.ok) => \A j \in 1..Len(Res.items) : LET it == Res.items[j] IN
+Inv_Tags == (vSeen /\ vKind # "row" /\ Res.ok) => \A j \in 1..Len(Res.items) : LET it == Res.items[j] IN
    /\ TestLine[it.col] = AT /\ TestLine[it.col - 1] = BACKTICK
    /\ StartsWith(From(TestLine, it.col), it.text \o <<BACKTICK>>)
    /\ Len(it.text) >= 2 /\ \A m \in 1..Len(it.text) : it.text[m] # BACKTICK
    /\ (j < Len(Res.items) => it.col + Len(it.text) < Res.items[j + 1].col)
-Emit == vSeen => PrintT(<<"MDR", ToJson([kind |-> vKind, line |-> TestLine, ok |-> Res.ok, items |-> IF Res.ok THEN Res.items ELSE <<>>])>>)
+Emit == vSeen => PrintT(<<"MDR", ToJson([kind |-> IF vKind = "row" THEN "row" ELSE "tags", line |-> TestLine, ok |-> Res.ok, items |-> IF Res.ok THEN Res.items ELSE <<>>])>>)
 =============================================================================
